@@ -70,6 +70,10 @@ def _row(rnd, d, style):
     """a probability row of d exact decimals summing to exactly 1"""
     if d == 1:
         return [Fr(1)]
+    if d == 4 and rnd.random() < 0.05:
+        # decimals that sum to exactly 1 while their left-to-right double sum is 1.0000000000000002 (F34)
+        a = rnd.choice([(33, 56, 11), (34, 55, 11), (34, 56, 10), (55, 34, 11), (56, 33, 11), (56, 34, 10)])
+        return [Fr(a[0], 100), Fr(a[1], 100), Fr(a[2], 100), Fr(0)]
     if style == "det":
         i = rnd.randrange(d)
         return [Fr(1) if j == i else Fr(0) for j in range(d)]
